@@ -76,7 +76,7 @@ def fmtOut : Out → String
   | .nil => "nil"
   | .panic => "panic"
   | .any => "-"
-  | .nat n => toString n
+  | .nat n => "c" ++ toString n
   | .bool b => fmtBool b
   | .val v => toString v
   | .ent e => fmtEnt e
